@@ -24,7 +24,7 @@ from hsim.worlds.udp import Arrival, Emission, UdpWorld
 PROPERTY = "C05"
 CHUNK = {"quick": 16, "thorough": 40}
 TICK = 0.1
-PROBES = ["ack_for_older_packet_after_second_injection", "ack_piggybacked_on_dropped_packet",
+PROBES = ["resend_after_stall", "ack_for_older_packet_after_second_injection", "ack_piggybacked_on_dropped_packet",
           "packetack_mixing_injected_and_real", "packetack_all_injected_with_appended_acks", "budget_exhausted",
           "ack_completes_injection", "ack_same_tick_as_resend", "taken_copy_resent", "taken_copy_acked",
           "dropped_reliable_acked_to_sender", "endpoint_retransmission_forwarded", "wrong_way_ack_number_collision",
@@ -69,6 +69,7 @@ def gen_plan(rng: random.Random, tier: str) -> dict:
     n = rng.randint(5, 70 if big else 40)
     steps = []
     t = 0.05
+    p_stall = rng.choice([0.0, 0.0, 0.04, 0.1])
     for r in cfg["regions"][0]:
         steps.append({"at": t, "op": "ucc", "v": 0, "r": r})
         t = round(t + 0.01, 4)
@@ -80,6 +81,12 @@ def gen_plan(rng: random.Random, tier: str) -> dict:
         r = rng.choice(cfg["regions"][0])
         x = rng.random()
         fate = lambda: rand_fate(rng, cfg["p_delay"], cfg["p_dup"], cfg["p_drop"])  # noqa: E731
+        if rng.random() < p_stall:
+            # the proxy process is blocked for a while (blocking hook, suspend/resume): nothing polls meanwhile
+            dur = round(resend_every * rng.choice([0.5, 1.5, 2.5, 4.0, 7.0, 12.0]), 3)
+            steps.append({"at": t, "op": "stall", "dur": dur})
+            t = round(t + dur, 4)
+            continue
         if x < p_inject:
             k += 1
             steps.append({"at": t, "op": "inject", "r": r, "dir": rng.choice(["out", "in"]),
@@ -110,6 +117,8 @@ def gen_plan(rng: random.Random, tier: str) -> dict:
 
 
 def simplify_step(step):
+    if step.get("op") == "stall" and step["dur"] > 0.5:
+        yield {**step, "dur": round(step["dur"] / 2, 3)}
     if step.get("fate"):
         yield {**step, "fate": {}}
     for k in ("acks", "zerocoded", "reack", "action"):
@@ -169,6 +178,10 @@ class AckOracle:
         world.emission_hooks.append(self.on_emission)
         world.net.taps.append(self._tap)
         self._done_before: Dict[int, bool] = {}
+        self.stalls = None       # the driver's list of (start, end) of injected process stalls
+
+    def stalled_between(self, t0: float, t1: float) -> float:
+        return sum(max(0.0, min(b, t1) - max(a, t0)) for a, b in (self.stalls or []))
 
     def violate(self, kind, **detail):
         if not self.stopped:
@@ -242,7 +255,12 @@ class AckOracle:
                 return self.violate("C05/resend/after-ack", wire=p.pid, direction=direction, acked_at=inj.acked_at,
                                     now=e.t)
             gap = e.t - inj.emit_times[-1]
-            if gap < self.resend_every - 1e-6 or gap > self.resend_every + self.cadence_slack + 1e-6:
+            # while the process was blocked nobody could retransmit: that time is not held against the cadence's
+            # upper bound (the lower bound - never sooner than the interval - always holds)
+            stalled = self.stalled_between(inj.emit_times[-1], e.t)
+            if stalled:
+                self.res.probe("resend_after_stall")
+            if gap < self.resend_every - 1e-6 or gap > self.resend_every + self.cadence_slack + stalled + 1e-6:
                 return self.violate("C05/resend/cadence", wire=p.pid, gap=round(gap, 4), resend_every=self.resend_every)
             inj.emit_times.append(e.t)
             if len(inj.emit_times) > self.budget:
@@ -429,7 +447,8 @@ class AckOracle:
             n = len(inj.emit_times)
             if inj.acked_at is None:
                 # never acknowledged: must have used exactly its budget and then failed
-                expected_fail_by = inj.emit_times[0] + self.budget * (self.resend_every + self.cadence_slack) + TICK
+                expected_fail_by = (inj.emit_times[0] + self.budget * (self.resend_every + self.cadence_slack) + TICK
+                                    + self.stalled_between(inj.emit_times[0], end_time))
                 if end_time >= expected_fail_by:
                     if n != self.budget:
                         return self.violate("C05/resend/budget", wire=inj.wire, direction=inj.direction,
@@ -506,6 +525,7 @@ def run_plan(plan: dict) -> RunResult:
         oracle = AckOracle(world, res, cfg, actions)
         state["oracle"] = oracle
         driver = Driver(world, model, res)
+        oracle.stalls = driver.stalls
 
         # pre-compute drop/take actions: keyed by the endpoint's own packet id, assigned at send time
         orig_build = driver.build
@@ -557,7 +577,8 @@ def run_plan(plan: dict) -> RunResult:
         driver.ops["inject"] = op_inject
 
         driver.schedule(plan["steps"])
-        end = (plan["steps"][-1]["at"] if plan["steps"] else 0) + cfg.get("tail", 2.0)
+        end = (plan["steps"][-1]["at"] if plan["steps"] else 0) + cfg.get("tail", 2.0) + sum(
+            s_["dur"] for s_ in plan["steps"] if s_["op"] == "stall")
         why = loop.run_sim(until=end, max_iterations=600_000)
         if why == "cap":
             res.violate("HARNESS/iteration-cap")
